@@ -45,6 +45,7 @@ func (h *hx) round(r int) {
 	h.clientScenarios(r, A, B, c0, c1)
 	h.keySwapScenarios(A, B, c0, c1)
 	h.cacheHistories(A, B, c0, c1)
+	h.hostHistories(A, B, c0, c1)
 	h.defaultSecretInstances(a, c0, t0+300*sec)
 	h.longSecretInstances(a, c1, t0+400*sec)
 	h.hostPortFamily(A, c0, t0+500*sec)
